@@ -266,7 +266,7 @@ func checkC10(c *Check) {
 			for _, b := range g.Blocks {
 				for i, n := range b.Nodes {
 					callsIn(n, func(call *ast.CallExpr) {
-						if fn := Callee(info, call); fn != nil && fn.Name() == "NewCall" && len(call.Args) >= 1 && strings.Contains(L.Src(call.Args[0]), "module_init") {
+						if fn := Callee(info, call); fn != nil && fn.Name() == "NewCall" && len(call.Args) >= 1 && isModuleInitFunc(info, fi.Decl.Body, call.Args[0]) {
 							foundCall = true
 							if mf.StateAt(b, i)&1 == 0 {
 								callOK = false
@@ -308,7 +308,7 @@ func checkC10(c *Check) {
 							if id, ok := ast.Unparen(x.X).(*ast.Ident); ok && info.Uses[id] == sliceObj {
 								ast.Inspect(x.Body, func(m ast.Node) bool {
 									if call, ok := m.(*ast.CallExpr); ok {
-										if fn := Callee(info, call); fn != nil && fn.Name() == "NewCall" && len(call.Args) >= 1 && strings.Contains(L.Src(call.Args[0]), "module_init") {
+										if fn := Callee(info, call); fn != nil && fn.Name() == "NewCall" && len(call.Args) >= 1 && isModuleInitFunc(info, fi.Decl.Body, call.Args[0]) {
 											ranged = true
 										}
 									}
@@ -361,7 +361,8 @@ func checkC10(c *Check) {
 			switch x := n.(type) {
 			case *ast.AssignStmt:
 				if len(x.Lhs) == 1 {
-					if ix, ok := x.Lhs[0].(*ast.IndexExpr); ok && strings.Contains(L.Src(ix.X), "visited") {
+					// the visited set: a map-typed parameter of the traversal, written under the module it is called for
+					if ix, ok := x.Lhs[0].(*ast.IndexExpr); ok && isMapType(info.TypeOf(ix.X)) && isParamOf(info, fi, ix.X) && isParamOf(info, fi, ix.Index) {
 						posVisited = x.Pos()
 					}
 				}
@@ -434,7 +435,7 @@ func checkC10(c *Check) {
 			// every use of the module parameter goes into getHashableModuleName
 			var modParam types.Object
 			for _, f := range fi.Decl.Type.Params.List {
-				if strings.Contains(L.Src(f.Type), "Module") && len(f.Names) == 1 {
+				if t := info.TypeOf(f.Type); t != nil && strings.HasSuffix(t.String(), "/src/ast.Module") && len(f.Names) == 1 {
 					modParam = info.Defs[f.Names[0]]
 				}
 			}
